@@ -28,6 +28,9 @@ func TestDebugLoop(t *testing.T) {
 		if o.violation != "" || o.liveness != "" {
 			n++
 			sigs[firstLine(o.violation)+"|"+o.liveness]++
+			if n <= 2 {
+				t.Logf("iter %d: %s", i, o.violation)
+			}
 		}
 	}
 	t.Logf("failures: %d/%d %v", n, N, sigs)
